@@ -73,6 +73,22 @@ func OracleC08(tr *Trace) Verdict {
 	}
 	for obj, list := range cbs {
 		who := fmt.Sprintf("%s#%d", tr.ID(list[0].Inst), obj)
+		// A Start that is issued while a stop call on the same election is still waiting for the run's goroutines
+		// begins a new run, which can be promoted before the stop call gets round to the OnDemote of the term it
+		// ended: OnPromote, OnPromote, OnDemote. That breaks the alternation (known finding); the late OnDemote
+		// is taken out of the sequence here so that everything after it is judged as usual.
+		excusedPP, lateD := map[int]bool{}, map[int]bool{}
+		for i := 1; i < len(list); i++ {
+			if list[i-1].Kind != "promote-enter" || list[i].Kind != "promote-enter" {
+				continue
+			}
+			if b := tr.stopOverlappedByStart(obj, list[i-1].Seq, list[i].Seq); b != nil && i+1 < len(list) && list[i+1].Kind == "demote-enter" &&
+				(b.RetSeq < 0 || list[i+1].Seq < b.RetSeq || (b.Action != nil && !b.Action.WaitForDemote && b.Call == "StopWithContext")) {
+				v.Viols = append(v.Viols, Viol{At: list[i].T, Sig: "C08 new-run-promoted-before-ondemote-of-the-run-being-stopped (Start overlapping a stop call)",
+					Msg: fmt.Sprintf("%s: %s called at %v was still waiting for the run's goroutines when Start was called again; the new run was promoted at %v, the OnDemote of the stopped term came at %v: OnPromote, OnPromote, OnDemote", who, b.Call, b.CallT, list[i].T, list[i+1].T)})
+				excusedPP[i], lateD[i+1] = true, true
+			}
+		}
 		np := 0
 		for i, cb := range list {
 			if cb.T >= tr.End {
@@ -100,7 +116,13 @@ func OracleC08(tr *Trace) Verdict {
 				}
 				continue
 			}
+			if lateD[i] || excusedPP[i] {
+				continue
+			}
 			prev := list[i-1]
+			if lateD[i-1] {
+				prev = list[i-2]
+			}
 			if prev.Kind == cb.Kind {
 				if cb.Kind == "demote-enter" {
 					v.Viols = append(v.Viols, Viol{At: cb.T, Sig: fmt.Sprintf("C08 double-ondemote reasons=%s+%s", tr.demoteReason(prev), tr.demoteReason(cb)),
